@@ -197,6 +197,74 @@ def run(ctx):
     ctx.rules.append("pool fault enumeration: random pool workloads (growable and fixed, with pool_reset), every index k=0..7 of the raw-allocation trace refused once, "
                      "a second pool alive; fixed pools over a misaligned 2 MB buffer filled to exhaustion, holes punched, small objects requested; predicate = live blocks intact, blocks inside own raw memory, pool_identify, every raw region returned exactly once, fixed pool single raw call, recovery after failure")
     oracle_tie(ctx, "pool-faults", exe, ["pool"], cases, pool_oracle, describe=pdesc, bucket=lambda c: "pool fixed=%d failk=%d" % (c[0], c[1]), timeout=300)
+    # --- C++ allocator entry points: tbb::cache_aligned_resource padding arithmetic (tie to MallocModel.car_request) and std::bad_alloc on unrepresentable requests
+    tlib, err = ctx.build_lib("tbb")
+    mlib, err2 = ctx.build_lib("tbbmalloc")
+    cexe, err3 = ctx.build_driver("drv_cppalloc", libs=[tlib, mlib], opt="-O1") if not (err or err2) else (None, err or err2)
+    if err3 or not cexe:
+        ctx.broken("drv_cppalloc build", str(err3))
+    else:
+        M = 1 << 64
+        pairs = []
+        for b in [0, 1, 7, 8, 9, 100, 4096, 1 << 20, (1 << 20) - 200] + [M - d for d in (1, 2, 8, 9, 10, 63, 64, 65, 120, 127, 128, 129, 136, 137, 200, 255, 256, 257, 4096, 4097, 5000, 1 << 20)] + [1 << 63, (1 << 63) + 5, M // 2 - 1]:
+            for a in (1, 8, 64, 128, 256, 4096):
+                pairs.append((b, a))
+        for _ in range(ctx.scale(100, 3000)):
+            pairs.append((M - rng.getrandbits(rng.choice([3, 7, 8, 9, 13])) - 1, 1 << rng.randrange(0, 13)))
+        case = [1, 1] + [x for p_ in pairs for x in p_]
+        rc, clines, err = ctx.run_driver(cexe, ["car"], [case], timeout=120)
+        toks = (clines or [""])[0].split()
+        ctx.rules.append("car: tbb::cache_aligned_resource::allocate(bytes, alignment) over a probing upstream resource, bytes within 1..2^20 of SIZE_MAX and small, alignments 1..4096: the request "
+                         "forwarded upstream (or the refusal before it) compared with MallocModel.car_request; a pointer is handed out only if the upstream block holds payload, slack and header")
+        ctx.count(("car",), True, "car")
+        nums = [t for t in toks if t.lstrip("-").isdigit()]
+        cbad = 0
+        if "SHORT" in toks or "NULL-WITHOUT-EXCEPTION" in toks or "MISALIGNED" in toks or "OTHER-EXCEPTION" in toks or rc != 0:
+            # find the first offending pair for the report
+            idx = 0; first = None
+            for t in toks:
+                if t.lstrip("-").isdigit():
+                    idx += 1
+                elif first is None:
+                    first = (idx - 1, t)
+            b, a = ([(1, 1)] + pairs)[first[0]] if first and 0 <= first[0] <= len(pairs) else (None, None)
+            cbad += 1
+            ctx.add(Finding("violation", "car-overflow-hands-out-short-block", "tbb::cache_aligned_resource(upstream).allocate(bytes=%s, alignment=%s): %s — bytes + padding is not representable in size_t, the wrapped sum is "
+                            "requested from the upstream resource and a pointer into that tiny block (header word written in front of it) is returned instead of std::bad_alloc (rc=%s)" % (b, a, first[1] if first else "crash", rc),
+                            {"tie": "car", "case": [1, 1, b, a] if b is not None else case[:40]}))
+        elif nums:
+            cls = int(nums[0]) - 8
+            mo = ctx.modelrun("car", [[cls] + case])[0]
+            if [int(x) for x in nums] != mo:
+                k = next(i for i, (x, y) in enumerate(zip([int(x) for x in nums], mo)) if x != y)
+                b, a = ([(1, 1)] + pairs)[k]
+                cbad += 1
+                ctx.add(Finding("broken", "broken:tie:car", "cache_aligned_resource.allocate(bytes=%d, alignment=%d): upstream request %s, model %s" % (b, a, nums[k], mo[k]), {"tie": "car", "case": [1, 1, b, a]}))
+            else:
+                ctx.traces_validated += len(mo)
+        ctx.ties.append({"name": "car (cache_aligned_resource padding arithmetic)", "cases": len(pairs) + 1, "disagreements": cbad})
+        hn = [100, 1 << 20, M - 1, M - 8, M - 100, M - 129, M - 5000, 1 << 63, 1 << 62, 1 << 48, M - 64, M - 65, M - 127, M - 128] + [M - rng.getrandbits(rng.choice([4, 8, 12, 20])) - 1 for _ in range(ctx.scale(20, 300))]
+        rc, hlines, err = ctx.run_driver(cexe, ["huge"], [hn], timeout=120)
+        ht = (hlines or [""])[0].split()
+        ctx.rules.append("cpp-huge: cache_aligned_allocator<char>, tbb_allocator<char>, scalable_allocator<char>, scalable_memory_resource, cache_aligned_resource(scalable) asked for n bytes, n up to SIZE_MAX: "
+                         "std::bad_alloc for every n >= 2^48 (never a pointer), a usable block for small n")
+        names = ["cache_aligned_allocator<char>", "tbb_allocator<char>", "scalable_allocator<char>", "scalable_memory_resource()", "cache_aligned_resource(scalable_memory_resource())"]
+        hbad = 0
+        if rc != 0 or len(ht) != 5 * len(hn):
+            hbad += 1
+            ctx.add(Finding("violation", "cpp-alloc-crash", "C++ allocator entry points with sizes near SIZE_MAX: crash / hang (rc=%s, %s)" % (rc, " ".join(ht)[-80:]), {"tie": "cpp-huge", "case": hn}))
+        else:
+            for i, n_ in enumerate(hn):
+                for w in range(5):
+                    r_ = ht[5 * i + w]
+                    ctx.count(("cpp-huge", n_, w), True, "cpp-huge")
+                    want = "1" if n_ <= (1 << 30) else "2"
+                    if r_ != want and hbad < 3:
+                        hbad += 1
+                        ctx.add(Finding("violation", "cpp-alloc-no-bad-alloc", "%s.allocate(%d bytes): %s" % (names[w], n_, {"1": "returned a block although the size (plus padding/header) is not representable / cannot be satisfied",
+                                        "4": "returned a block for a size that cannot be satisfied", "3": "threw something else than std::bad_alloc", "2": "threw std::bad_alloc for a small request"}.get(r_, r_)),
+                                        {"tie": "cpp-huge", "case": [n_]}))
+        ctx.ties.append({"name": "cpp-huge (oracle only)", "cases": 5 * len(hn), "disagreements": hbad})
     # --- real threads: foreign frees, thread exit with live blocks
     bad = 0
     nmt = ctx.scale(6, 80)
@@ -213,6 +281,16 @@ def run(ctx):
 
 def replay(ctx, rep):
     exe = c17.build(ctx)
+    if rep.get("tie") in ("car", "cpp-huge"):
+        tlib, err = ctx.build_lib("tbb"); mlib, err2 = ctx.build_lib("tbbmalloc")
+        cexe, err3 = ctx.build_driver("drv_cppalloc", libs=[tlib, mlib], opt="-O1")
+        rc, lines, err = ctx.run_driver(cexe, ["car" if rep["tie"] == "car" else "huge"], [rep["case"]], timeout=60)
+        print(rc, lines)
+        bad = (rep["tie"] == "car" and any(w in (lines or [""])[0] for w in ("SHORT", "NULL", "MISALIGNED"))) or rc != 0 or \
+              (rep["tie"] == "cpp-huge" and any(t != ("1" if rep["case"][0] <= (1 << 30) else "2") for t in (lines or [""])[0].split()))
+        if bad:
+            ctx.add(Finding("violation", "car-overflow-hands-out-short-block" if rep["tie"] == "car" else "cpp-alloc-no-bad-alloc", "replay %s: %s" % (rep["case"][:8], (lines or ["crash"])[0][:200]), {"tie": rep["tie"], "case": rep["case"]}))
+        return
     if rep.get("tie") == "pool-faults":
         oracle_tie(ctx, "pool-faults", exe, ["pool"], [rep["case"]], pool_oracle, describe=pdesc)
     elif rep.get("tie") == "malloc-guards":
